@@ -489,7 +489,20 @@ func cmdReplayIO(args []string) int {
 				toks = append(toks, DecTok(t))
 			}
 			input := Serialise(toks, nil)
-			if !ReadsBackAs(input, toks) {
+			if fam.Docs[c.Did-1].Blank {
+				// a blank document is given byte for byte (carriage returns stay carriage returns): it never reaches the tokenizer
+				var raw bytes.Buffer
+				for _, t := range toks {
+					raw.WriteString(t.D)
+				}
+				input = raw.Bytes()
+				if c.Status != "blank" && !ReadsBackAs(input, toks) {
+					// the reader entry points do tokenise blank input; a carriage return is then not what the tokenizer hands on,
+					// so the token-level prediction does not apply to this document (the entry-point comparison still runs)
+					res.Dropped++
+					continue
+				}
+			} else if !ReadsBackAs(input, toks) {
 				res.Dropped++
 				continue
 			}
